@@ -434,6 +434,8 @@ class GenCtx(object):
     def usort_list(self):
         seen = []
         for s in self.symbols.values():
+            if is_fun(s):
+                s = s[2]
             if is_usort(s) and sort_key(s) not in [sort_key(x) for x in seen]:
                 seen.append(s)
         return seen
@@ -507,7 +509,7 @@ def gen_term(tape, sort, depth, ctx):
             return [op, gen_term(tape, INT, d, ctx), gen_term(tape, INT, d, ctx)]
         if k == "ueq":
             s = tape.choice(ctx.usort_list(), "bool.usort")
-            return ["=", gen_leaf(tape, s, ctx), gen_leaf(tape, s, ctx)]
+            return ["=", gen_term(tape, s, d, ctx), gen_term(tape, s, d, ctx)]
     if is_bv(sort):
         w = sort[1]
         kinds = [(4, "bin"), (1, "un"), (1, "ite")]
